@@ -39,6 +39,8 @@ type copyState struct {
 	seen     map[string]bool // digest files seen at this copy's own source requests
 	atReturn map[string]bool // closure below its tag at the instant it returned nil
 	atTag    map[string]bool // closure below its tag right after the tag was written (still inside the copy)
+	seen2    map[string]bool // RefTgt == 2: digest files of the second layout seen at this copy's own instants
+	atRet2   map[string]bool // RefTgt == 2: what the second layout reached (below its entries) when the copy returned nil
 	requests int
 	late     int // events observed after the copy had returned
 }
@@ -71,6 +73,11 @@ type envB struct {
 	tmp  string
 	tgt  string
 	tgtS string // spelling of the layout path in every reference
+	// the second layout: target of referrers of copies with RefTgt == 2
+	tgt2      string
+	tgt2S     string
+	src2S     string // a layout holding the whole graph (ImageWithReferrerSrc)
+	closeRef2 ref.Ref
 	m    *rm.Model
 	rc   *regclient.RegClient
 
@@ -89,6 +96,7 @@ type envB struct {
 	closeErrs     []string
 	finished      bool
 	deadCtxCloses int
+	closes2       int
 }
 
 // diag describes the layout at the instant a disappearance is noticed (message only).
@@ -119,6 +127,11 @@ func (e *envB) diag(gone []string) string {
 	}
 	fmt.Fprintf(&sb, " copies: %v; closes from inside copies so far: %d", st, e.closesInCopy)
 	return sb.String()
+}
+
+func (e *envB) hasIndex2() bool {
+	_, err := os.Stat(filepath.Join(e.tgt2, "index.json"))
+	return err == nil
 }
 
 func (e *envB) hasIndex() bool {
@@ -168,6 +181,31 @@ func setupB(c *CaseB) (*envB, error) {
 	}
 	for _, k := range c.CloseAt {
 		e.closeAt[k] = true
+	}
+	e.tgt2 = filepath.Join(tmp, "tgt2")
+	pre2 := c.Pre2
+	if pre2 == "" {
+		pre2 = "absent"
+	}
+	if err := writePre(g, e.tgt2, pre2, nil, false); err != nil {
+		return nil, err
+	}
+	src2 := filepath.Join(tmp, "src2")
+	for i, cp := range c.Copies {
+		if cp.RefSrc == 2 {
+			g.PutRegistry(h, copyRepo(i)+"rs", !c.RefAPI, nil)
+		}
+		if cp.RefSrc == 1 && e.src2S == "" {
+			if err := g.PutLayout(src2, imggen.LayoutStyle{UntaggedAll: true}, nil); err != nil {
+				return nil, err
+			}
+			e.src2S = spell(src2, c.PathForm)
+		}
+		e.copies[i].seen2 = map[string]bool{}
+	}
+	e.tgt2S = spell(e.tgt2, c.PathForm)
+	if e.closeRef2, err = ref.New("ocidir://" + e.tgt2S + ":c0"); err != nil {
+		return nil, err
 	}
 	e.tgtS = spell(e.tgt, c.PathForm)
 	e.closeRef, err = ref.New("ocidir://" + e.tgtS + ":c0")
@@ -242,6 +280,26 @@ func (e *envB) observe(i int, what string, tagWritten bool) {
 		cs.seen[d] = true
 		e.seenAll[d] = true
 	}
+	into2 := e.c.Copies[i].Referrers && e.c.Copies[i].RefTgt == 2
+	var files2 map[string]bool
+	if into2 {
+		// this copy writes its referrers into the second layout: it is a copy in progress into that layout too
+		files2 = listDigestFiles(e.tgt2)
+		gone := []string{}
+		for d := range cs.seen2 {
+			if !files2[d] && !present(e.tgt2, d) {
+				gone = append(gone, d)
+			}
+		}
+		if len(gone) > 0 {
+			sort.Strings(gone)
+			e.addCand(i, late, "file-disappeared-during-copy-referrer-target-layout", fmt.Sprintf("while ImageCopy #%d (node %d -> tag %s, referrers into the SECOND layout) was in progress, %d file(s) under blobs/ of that second layout that were there at an earlier instant of the same copy are gone at %s: %v",
+				i, e.c.Copies[i].Node, copyTag(i), len(gone), what, head(gone, 4)))
+		}
+		for d := range files2 {
+			cs.seen2[d] = true
+		}
+	}
 	if tagWritten {
 		if cs.atTag == nil {
 			cs.atTag = map[string]bool{}
@@ -273,6 +331,31 @@ func (e *envB) observe(i int, what string, tagWritten bool) {
 				gone = append(gone, d)
 			}
 		}
+		if e.c.CloseBoth {
+			// the second layout is closed from the same instant
+			had2 := e.hasIndex2()
+			c2ctx, c2cancel := mkCtx(ck)
+			cerr2 := e.rc.Close(c2ctx, e.closeRef2)
+			c2cancel()
+			e.closes2++
+			if cerr2 != nil && had2 && !(ck%4 != 0 && ctxError(cerr2)) {
+				e.closeErrs = append(e.closeErrs, "second layout: "+cerr2.Error())
+			}
+			if into2 {
+				after2 := listDigestFiles(e.tgt2)
+				gone2 := []string{}
+				for d := range files2 {
+					if !after2[d] && !present(e.tgt2, d) {
+						gone2 = append(gone2, d)
+					}
+				}
+				if len(gone2) > 0 {
+					sort.Strings(gone2)
+					e.addCand(i, late, "close-during-copy-removed-files-referrer-target-layout", fmt.Sprintf("Close of the SECOND layout called while ImageCopy #%d (node %d -> tag %s, ImageWithReferrerTgt = that second layout) was in progress (from inside %s) removed %d file(s) under its blobs/: %v (Close returned %v)",
+						i, e.c.Copies[i].Node, copyTag(i), what, len(gone2), head(gone2, 4), cerr2))
+				}
+			}
+		}
 		if len(gone) > 0 {
 			sort.Strings(gone)
 			e.addCand(i, late, "close-during-copy-removed-files", fmt.Sprintf("Close(target) called while ImageCopy #%d (node %d -> tag %s) was in progress (from inside %s, %d copies running) removed %d file(s) under blobs/: %v (Close returned %v)",
@@ -301,11 +384,49 @@ func (e *envB) runCopy(ctx context.Context, i int) {
 	}
 	e.mu.Unlock()
 	cctx, cancel := context.WithTimeout(ctx, 60*time.Second)
-	cerr := e.rc.ImageCopy(cctx, src, tgt, append(copyOpts(cp.Platforms, cp.Referrers, cp.DigestTags, cp.Force, false, false), regclient.ImageWithCallback(e.callback(i)))...)
+	opts := append(copyOpts(cp.Platforms, cp.Referrers, cp.DigestTags, cp.Force, false, false), regclient.ImageWithCallback(e.callback(i)))
+	if cp.Referrers {
+		mk := func(s string) ref.Ref {
+			r, err := ref.New(s)
+			if err != nil {
+				panic(fmt.Sprintf("harness: referrer ref %q: %v", s, err))
+			}
+			return r
+		}
+		switch cp.RefTgt {
+		case 1: // the main layout again, named by another reference (same path)
+			opts = append(opts, regclient.ImageWithReferrerTgt(mk("ocidir://"+e.tgtS+":rt"+fmt.Sprint(i))))
+		case 2:
+			opts = append(opts, regclient.ImageWithReferrerTgt(mk("ocidir://"+e.tgt2S+":rt"+fmt.Sprint(i))))
+		case 3:
+			opts = append(opts, regclient.ImageWithReferrerTgt(mk(srcHost+"/"+copyRepo(i)+"rt:rt")))
+		}
+		switch {
+		case cp.RefSrc == 1 && e.src2S != "":
+			opts = append(opts, regclient.ImageWithReferrerSrc(mk("ocidir://"+e.src2S+":v1")))
+		case cp.RefSrc == 2:
+			opts = append(opts, regclient.ImageWithReferrerSrc(mk(srcHost+"/"+copyRepo(i)+"rs:v1")))
+		}
+	}
+	cerr := e.rc.ImageCopy(cctx, src, tgt, opts...)
 	cancel()
-	var atReturn map[string]bool
+	var atReturn, atRet2 map[string]bool
 	if cerr == nil {
 		atReturn = reachFrom(e.tgt, copyTag(i))
+		if cp.Referrers && cp.RefTgt == 2 {
+			// what the second layout reaches below its entries (the fallback indexes themselves are replaced as referrers are added)
+			r2 := reach(e.tgt2)
+			atRet2 = map[string]bool{}
+			top := map[string]bool{}
+			for _, en := range r2.entries {
+				top[en.Digest] = true
+			}
+			for d := range r2.info {
+				if !top[d] {
+					atRet2[d] = true
+				}
+			}
+		}
 	}
 	files := listDigestFiles(e.tgt)
 	e.mu.Lock()
@@ -317,7 +438,7 @@ func (e *envB) runCopy(ctx context.Context, i int) {
 	if os.Getenv("VERIF_DEBUG") != "" {
 		fmt.Fprintf(os.Stderr, "copy %d returned %v\n", i, cerr)
 	}
-	cs.done, cs.err, cs.atReturn = true, cerr, atReturn
+	cs.done, cs.err, cs.atReturn, cs.atRet2 = true, cerr, atReturn, atRet2
 	for d := range files {
 		e.seenAll[d] = true
 	}
@@ -379,8 +500,13 @@ func checkB(cs Case, ev *evid.Collector) *evid.Violation {
 					// a layout that so far only received blobs (e.g. from a copy that failed) has no index.json; Close fails on
 					// reading it and nothing is asserted about that (see Part A)
 					hadIndex := e.hasIndex()
+					cref := e.closeRef
+					if st.Layout == 1 {
+						cref = e.closeRef2
+						hadIndex = e.hasIndex2()
+					}
 					cctx, ccancel := mkCtx(st.Ctx)
-					err := e.rc.Close(cctx, e.closeRef)
+					err := e.rc.Close(cctx, cref)
 					ccancel()
 					if st.Ctx%4 != 0 {
 						e.mu.Lock()
